@@ -65,7 +65,9 @@ fn judge_fault(ctx: &Ctx, scope: &str, clean: &Run, run: &Run, side: Side, trans
             ctx.seen(&format!("{}: transient {:?} fault surfaced as error", scope, side));
             return true;
         }
-        if run.outcome.is_ok() {
+        if run.outcome.is_ok() && !clean.outcome.is_ok() {
+            ctx.violation(&format!("C10:{}:success-where-the-fault-free-run-refuses-after-interrupted-{:?}", scope, side), full());
+        } else if run.outcome.is_ok() {
             ctx.violation(&format!("C10:{}:success-with-incomplete-output-after-interrupted-{:?}", scope, side), full());
         } else {
             ctx.violation(&format!("C10:{}:wrong-error-after-interrupted-{:?}", scope, side), full());
@@ -235,6 +237,34 @@ fn small_block(ctx: &Ctx) {
                 ctx.violation("C10:small:decrypt-result-depends-on-schedule", case());
             }
         }
+        // files that are NOT authentic (extended by trailing bytes, cut short): the verdict and the bytes written are the
+        // fault-free ones whatever transient fault the source shows, and a real fault still surfaces as one - the sweep's
+        // oracle compares every faulted run with the fault-free run of the same file
+        if i % 3 == 0 {
+            let mut variants: Vec<(&str, Vec<u8>)> = Vec::new();
+            let mut ext = ct.clone();
+            ext.push(0x5a);
+            variants.push(("one byte appended", ext));
+            let mut ext2 = ct.clone();
+            ext2.extend_from_slice(&ct);
+            variants.push(("the whole stream appended again", ext2));
+            if ct.len() > 1 {
+                variants.push(("last byte cut off", ct[..ct.len() - 1].to_vec()));
+                variants.push(("cut in the middle", ct[..ct.len() / 2].to_vec()));
+            }
+            for (what, bad) in variants {
+                let case3 = || json!({"direction": "decrypt", "stream": what, "ciphertext": hex(&bad), "chunk_size": c, "key": hex(&key), "aad": hex(aad), "io": dec_io.describe()});
+                let u0 = dec(&bad, &Io::plain());
+                let u1 = dec(&bad, &dec_io);
+                ctx.eval();
+                if u0.outcome.is_ok() || u0.outcome.class() != u1.outcome.class() || u0.out != u1.out {
+                    ctx.violation("C10:small:decrypt-result-depends-on-schedule:unauthentic-stream", case3());
+                    continue;
+                }
+                sweep(ctx, "small-decrypt-unauthentic", &bad, &dec_io, &dec, &case3, 1, &format!("{}u{}", i, what));
+                ctx.seen("small: unauthentic stream swept");
+            }
+        }
         if i == 100 {
             ctx.sample("small-scope fault sweep", 1, || json!({"plaintext": hex(&pt), "read_partition": comp, "chunk_size": c, "fault_free_trace_encrypt": clean.log.shape(), "fault_free_trace_decrypt": d1.log.shape()}));
         }
@@ -270,6 +300,10 @@ fn production_block(ctx: &Ctx) {
             let ct = clean.out;
             let case = || json!({"direction": "key_decrypt", "len": len, "recipient_private": hex(&k.r_priv), "io": io.describe(), "file_len": ct.len()});
             sweep(ctx, "production-key-decrypt", &ct, &io, &dec, &case, stride, &format!("{}", len));
+            let mut ext = ct.clone();
+            ext.push(0x5a);
+            let case = || json!({"direction": "key_decrypt", "stream": "one byte appended to the authentic file", "len": len, "recipient_private": hex(&k.r_priv), "io": io.describe(), "file_len": ext.len()});
+            sweep(ctx, "production-key-decrypt-extended", &ext, &io, &dec, &case, stride, &format!("{}x", len));
         } else {
             let pw = b"correct horse".to_vec();
             let salt = rng.arr32();
@@ -287,6 +321,10 @@ fn production_block(ctx: &Ctx) {
             let ct = clean.out;
             let case = || json!({"direction": "pass_decrypt", "len": len, "password": hex(&pw), "io": io.describe(), "file_len": ct.len()});
             sweep(ctx, "production-pass-decrypt", &ct, &io, &dec, &case, pstride, &format!("{}", len));
+            let mut ext = ct.clone();
+            ext.push(0x5a);
+            let case = || json!({"direction": "pass_decrypt", "stream": "one byte appended to the authentic file", "len": len, "password": hex(&pw), "io": io.describe(), "file_len": ext.len()});
+            sweep(ctx, "production-pass-decrypt-extended", &ext, &io, &dec, &case, pstride * 2, &format!("{}x", len));
         }
     });
 }
@@ -492,6 +530,8 @@ pub fn run(ctx: &Ctx) {
         cli_block(ctx);
     }
     ctx.require("small: stream closed by an empty final chunk swept", 20);
+    ctx.require("small: unauthentic stream swept", 100);
+    ctx.require("production-key-decrypt-extended: transient Read fault retried, same result", 5);
     ctx.require("fault-free run: every accepted byte was followed by a successful flush", 100);
     ctx.require("small-encrypt: Read fault -> error", 100);
     ctx.require("small-encrypt: Write fault -> error", 100);
